@@ -47,9 +47,10 @@ func newWorld() *c15World {
 	x.w = spg.NewWLRecipe(1, wl)
 	x.sfRec = spg.CharRecipe{Length: 1, AllowChars: "-+="}
 	x.sf = spg.NewSFFunction(x.sfRec)
-	// a separator function over a recipe whose RequireSets slice the caller
-	// keeps: {"x","x"} can be honoured with one character, {"x","y"} cannot
-	x.sfReqSets = []string{"x", "x"}
+	// a separator function over a recipe with a requirement (one attempt
+	// succeeds with probability 1/2): generated under the default retry
+	// budget, refused when the caller sets MaxTrials to 1
+	x.sfReqSets = []string{"x"}
 	x.sfReq = spg.NewSFFunction(spg.CharRecipe{Length: 1, AllowChars: "xy", RequireSets: x.sfReqSets})
 	return x
 }
@@ -191,11 +192,12 @@ func c15Ops() []c15Op {
 			cp.Length = 2
 			return renderGen(runGen(cp.Generate))
 		}},
-		{Name: "sfReq's RequireSets[1] x<->y in place", Upd: func(x *c15World) {
-			if x.sfReqSets[1] == "x" {
-				x.sfReqSets[1] = "y"
+		{Name: "MaxTrials 200<->1", Upd: func(x *c15World) {
+			// (a package variable the caller may set; c15Seq restores it)
+			if spg.MaxTrials == 1 {
+				spg.MaxTrials = c15T0
 			} else {
-				x.sfReqSets[1] = "x"
+				spg.MaxTrials = 1
 			}
 		}},
 		{Name: "c.Length 2<->3", Upd: func(x *c15World) { x.c.Length = 5 - x.c.Length }},
@@ -318,11 +320,11 @@ func c15Model(x *c15World, op, got string) string {
 			}
 		}
 	case op == "sfReq()":
-		if x.sfReqSets[1] == "y" && got != `"" 00000000` {
-			return "the separator recipe's required sets are {x},{y} now: one character cannot satisfy both, so the function yields the empty separator with no entropy"
+		if spg.MaxTrials == 1 && got != `"" 00000000` {
+			return "with MaxTrials = 1 the separator recipe (success chance 1/2 per attempt) is refused, so the function yields the empty separator with no entropy"
 		}
-		if x.sfReqSets[1] == "x" && !strings.HasPrefix(got, `"x" `) {
-			return "the separator recipe requires x (twice): the separator is x"
+		if spg.MaxTrials != 1 && !strings.HasPrefix(got, `"x" `) {
+			return "the separator recipe requires x: the separator is x"
 		}
 	case op == "sfBad()":
 		if got != `"" 00000000` {
